@@ -356,7 +356,7 @@ func genMalformed(r *h.Rand) []string {
 }
 
 func gen(r *h.Rand, tier string, emit func([]string)) {
-	n := 1500
+	n := 1200
 	if tier == "thorough" {
 		n = 30000
 	}
